@@ -1,9 +1,9 @@
 (* Extraction of the C08 model for the correspondence driver.  ExtrOcamlBasic and
    ExtrOcamlString only: N, Z, positive, nat stay the extracted inductive datatypes. *)
 From SV Require Import Base.Prelude Base.Bytes Model.FrameBase Model.FrameTypes Model.FrameResp
-  Model.FrameCustom Model.FrameEnc Model.FrameValues Model.FrameChunk.
+  Model.FrameCustom Model.FrameEnc Model.FrameValues Model.FrameChunk Model.FrameGuard.
 Require Extraction.
 Require Import ExtrOcamlBasic ExtrOcamlString.
 Extraction Language OCaml.
 Extraction "../ocaml/c08/model.ml" decode encode_frame enc_body enc_header parse_custom
-  alloc_bound depth_bound stack_bound stack_in_bound is_rejected largest_in_proportion total_in_proportion read_frame read_frame_chunked reader_after cut_chunks tuple_target tuple_rows_first_error typed_rows_first_error tablet_payload payload_lookup tablets_key decode_pair.
+  alloc_bound depth_bound stack_bound stack_in_bound is_rejected largest_in_proportion total_in_proportion read_frame read_frame_chunked reader_after cut_chunks tuple_target tuple_rows_first_error typed_rows_first_error tablet_payload payload_lookup tablets_key decode_pair guard within_expansion.
